@@ -30,6 +30,7 @@ def pack(attrs, entries):
     return out
 
 def cs(b): return rt.make_bytes(b + b'\0', 'input')
+FILE_TOTAL = [None]
 def read_all(N, p):
     """what the reader exposes: (good, attrs, [(name, size, data)])"""
     good = N['w_pbo_good'](p) & 0xFFFFFFFF
@@ -44,7 +45,10 @@ def read_all(N, p):
     for i in range(N['w_pbo_nfiles'](p)):
         nl = N['w_pbo_file'](p, i, nb, 256, sz)
         name = rt.read_vals(nb, min(nl, 256)); size = rt.ld(sz, 8)
-        if size.__class__ is S: size = rt.concretize(size)
+        if size.__class__ is S:
+            # an exposed entry can never be larger than the archive file: decided for all values before the size is enumerated
+            if FILE_TOTAL[0] is not None: rt.check(z3.ULE(size.e, z3.BitVecVal(FILE_TOTAL[0], size.w)), 'archive accepted and exposes an entry that is larger than the file (%d bytes)' % FILE_TOTAL[0])
+            size = rt.concretize(size)
         ob = rt.new_obj(max(min(size, 4096), 1), 'harness')
         nm = rt.new_obj(max(len(name), 1), 'input')
         for j, c in enumerate(name): rt.st(nm + j, 1, c)
@@ -94,6 +98,7 @@ def wellformed_case(m):
                 off += len(d)
             rt.VFS.clear(); rt.VFS[b'/arch/t.pbo'] = content; rt.VFS_WRITES[:] = []
             p = N['w_pbo_open'](cs(b'/arch/t.pbo'))
+            FILE_TOTAL[0] = len(content)
             good, ra, rf = read_all(N, p)
             if not good: rt.record_violation('assert', 'well-formed archive with %d entries rejected' % ne); return dict(text='rejected', n=0)
             ra = [(k, v) for k, v in ra if k or v]
@@ -112,7 +117,17 @@ def wellformed_case(m):
         finally: rt.TRACK_UNINIT[0] = False
     return case
 
-GOOD = pack([(b'prefix', b'x\\y'), (b'v', b'2')], [(b'a.sqf', b'hint 1;'), (b'dir\\b.txt', b''), (b'c', b'CC')])
+GOOD_ENTRIES = [(b'a.sqf', b'hint 1;'), (b'dir\\b.txt', b''), (b'c', b'CC')]
+GOOD = pack([(b'prefix', b'x\\y'), (b'v', b'2')], GOOD_ENTRIES)
+def size_field_offsets():
+    """byte offsets of the 'data size' field (5th u32) of every entry header of GOOD"""
+    off = 1 + 20                                   # version header: empty name + 5 u32
+    while GOOD[off] != 0: off = GOOD.index(b'\0', off) + 1; off = GOOD.index(b'\0', off) + 1      # key, value
+    off += 1
+    res = []
+    for name, data in GOOD_ENTRIES:
+        off += len(name) + 1; res.append(off + 16); off += 20
+    return res
 def damaged_case(m, kind, arg=None):
     N = m.NAMES
     def case():
@@ -123,6 +138,15 @@ def damaged_case(m, kind, arg=None):
             elif kind == 'corrupt':
                 pos = C01.choose('pos', len(GOOD)); c = rt.fresh_bv('c', 8)
                 content = list(GOOD); content[pos] = c; what = 'byte %d replaced by a symbolic byte' % pos
+            elif kind == 'corrupt32':
+                # one or two whole 32-bit data-size fields are fully symbolic (sums of sizes may wrap around 2^32)
+                offs = size_field_offsets(); sets = [(0,), (1,), (2,), (0, 1), (0, 2), (1, 2)]
+                which = sets[C01.choose('fields', len(sets))]
+                content = list(GOOD)
+                for fi in which:
+                    v = rt.fresh_bv('size%d' % fi, 32)
+                    for b_ in range(4): content[offs[fi] + b_] = S(z3.Extract(8 * b_ + 7, 8 * b_, v.e), 8)
+                what = 'data size field(s) of entries %r replaced by symbolic 32-bit values' % (which,)
             else:
                 content = [rt.fresh_bv('b%d' % i, 8) for i in range(arg)]; what = '%d fully symbolic bytes' % arg
             rt.VFS.clear(); rt.VFS[b'/arch/t.pbo'] = content; rt.VFS_WRITES[:] = []
@@ -131,11 +155,13 @@ def damaged_case(m, kind, arg=None):
             if rt.VFS_WRITES: rt.record_violation('assert', '%s: loading wrote to the file system: %r' % (what, rt.VFS_WRITES[:2]))
             if good:
                 # only intact entries may be exposed: every exposed entry's data must lie inside the file
-                total = len(content)
+                total = len(content); acc = 0
                 for nm, size, data in rf:
-                    if size > total: rt.record_violation('assert', '%s: archive accepted and exposes an entry of %d bytes, more than the file holds (%d)' % (what, size, total)); break
+                    if size.__class__ is S: size = rt.concretize(size, limit=64)
+                    acc += size
+                    if size > total or acc > total: rt.record_violation('assert', '%s: archive accepted and exposes entries of %d bytes (%d in all), more than the file holds (%d)' % (what, size, acc, total)); break
             return dict(text=what + (' accepted' if good else ' rejected'), n=1)
-        finally: rt.TRACK_UNINIT[0] = False; rt.HEAP_LIMIT[0] = 1 << 30
+        finally: rt.TRACK_UNINIT[0] = False; rt.HEAP_LIMIT[0] = 1 << 30; FILE_TOTAL[0] = None
     return case
 
 def absent_case(m):
@@ -195,7 +221,7 @@ def run(ctx):
         ob, recs = r
         for v in ob['violations']: v['trust_without_replay'] = True
         oblig.witness_check(ob, recs, lambda rr: rr['verdict'] == 'ok' and (rr.get('n') or 0) >= 2, 'an archive with entries compared'); obs.append(ob)
-    cases = [('trunc', damaged_case(m, 'trunc')), ('corrupt', damaged_case(m, 'corrupt'))] + [('sym%d' % n, damaged_case(m, 'sym', n)) for n in ((1, 2, 22) if tier == 'quick' else (1, 2, 3, 22, 23, 24))]
+    cases = [('trunc', damaged_case(m, 'trunc')), ('corrupt', damaged_case(m, 'corrupt')), ('corrupt32', damaged_case(m, 'corrupt32'))] + [('sym%d' % n, damaged_case(m, 'sym', n)) for n in ((1, 2, 22) if tier == 'quick' else (1, 2, 3, 22, 23, 24))]
     r = oblig.run('pbo.damaged', cases, ctx, funcs, 'a %d-byte well-formed archive truncated at every offset; every single byte of it replaced by a fully symbolic byte (length fields, names, method tags); files of 1, 2 and 22 fully symbolic bytes' % len(GOOD), assumptions=assume, case_timeout=2400,
                   keyfn=key('pbo.damaged'), step_limit=400_000_000, sample_fn=lambda rr: dict(archive=rr.get('text')) if rr.get('text') else None)
     if r:
